@@ -59,6 +59,9 @@ def queries(tier):
                        bounds='buffer length == %d, literal length == %d' % (L, K)))
     qs.append(dict(name='hex_char', unit='json', harness='h_reader.c', defs={'OP': 5, 'LEN': 0}, unwind=26, timeout=300, mem_gb=3,
                    desc='value_for_hex_char on all 256 byte values', bounds='all 256 values'))
+    for t in (0, 1, 2, 3):
+        qs.append(dict(name='tmpl_%d' % t, unit='json', harness='h_tmpl.c', defs={'TPL': t}, unwind=8,
+                       unwindset=parse_unwindset(3, 1), object_bits=12, timeout=1500, mem_gb=28, flags=['--slice-formula'], desc='template %d' % t, bounds=''))
     if os.environ.get('C05_PROBES'):
         # measurement only (see OUTSIDE): whole JSON::parse on fully symbolic bytes. None of these returned a verdict.
         for L, NB in ((1, 0), (2, 0), (2, 1)):
